@@ -23,7 +23,13 @@ bad=0
 for d in seeded/C*/; do
   b=$(basename "$d")
   case "$b/" in *"$PAT"*) ;; *) continue;; esac
-  r=$(tools/try_patch.sh "$d/patch.diff" 2>&1)
+  # first the checks that matter for this seed (its own property and those that fired before); the
+  # whole set only if none of them fires
+  own=$(echo "$b" | cut -d- -f1)
+  prev=$(python3 -c "import json;print(' '.join(json.load(open('$d/meta.json')).get('checks_fired',[])))")
+  props=$(echo "$own $prev" | tr ' ' '\n' | sort -u | tr '\n' ' ')
+  r=$(tools/try_patch.sh "$d/patch.diff" $props 2>&1)
+  if ! echo "$r" | grep -q "^== C.. fires"; then r=$(tools/try_patch.sh "$d/patch.diff" 2>&1); fi
   fired=$(echo "$r" | grep "^== C.. fires" | sed 's/== \(C..\) fires:/\1/' | tr '\n' ' ')
   rules=$(echo "$r" | grep -oE "^  (VIOLATED|UNDECIDED) [A-Za-z0-9-]+" | awk '{print $2}' | sort -u | tr '\n' ' ')
   was=$(python3 -c "import json;print('yes' if json.load(open('$d/meta.json'))['caught'] else 'no')")
@@ -50,6 +56,8 @@ import json,glob,os
 rows=[]
 for d in sorted(glob.glob('/verif/seeded/C*/')):
     m=json.load(open(d+'meta.json'))
+    if m.get('superseded'):
+        continue
     rows.append((os.path.basename(d.rstrip('/')),' '.join(m['checks_fired']) or '—',' '.join(m['rules_fired']) or '—',(m.get('summary') or '')[:160].replace('|','/').replace('\n',' ')))
 with open('/verif/seeded/RESULTS.md','w') as f:
     f.write('# Seeded changes: which quick checks fire\n\nEvery row: the change compiles, the full suite stays at baseline, the demonstration passes without and fails with it (re-confirmed in a scratch copy).\n\n| seed | properties whose check fires | rules | change |\n|---|---|---|---|\n')
